@@ -63,7 +63,11 @@ func (c *Ctx) havoc(st *State, m *ModSet, why string) {
 			if !ok {
 				cur = c.entryHeapByName(hn)
 			}
-			st.heaps[hn] = c.fresh(hn, cur.Sort)
+			nh := c.fresh(hn, cur.Sort)
+			st.heaps[hn] = nh
+			if strings.HasPrefix(hn, "H_") {
+				defer func(nh Term, srt string) { c.wfHeap(nh, srt, st.alloc) }(nh, c.heapSort[hn])
+			}
 		}
 		n := c.fresh("alloc", SInt)
 		c.assume(app(SBool, ">=", n, st.alloc))
@@ -74,6 +78,12 @@ func (c *Ctx) havoc(st *State, m *ModSet, why string) {
 		c.note("havoc of all heaps (%s)", why)
 		return
 	}
+	var wfLater [][2]Term
+	defer func() {
+		for _, w := range wfLater {
+			c.wfHeap(w[0], w[1].S, st.alloc)
+		}
+	}()
 	for _, hn := range m.heapNames() {
 		cur, ok := st.heaps[hn]
 		if !ok {
@@ -113,6 +123,7 @@ func (c *Ctx) havoc(st *State, m *ModSet, why string) {
 		}
 		n := c.fresh(hn, cur.Sort)
 		st.heaps[hn] = n
+		wfLater = append(wfLater, [2]Term{n, {es, ""}})
 		if m.heapAll[hn] {
 			continue
 		}
